@@ -132,6 +132,22 @@ func (c *channel) stopReceiver() {
 	}
 }
 
+// signalStopReceiver cancels the receiver goroutine and waits for it
+// to return, but no longer than the provided context allows.
+func (c *channel) signalStopReceiver(ctx context.Context) {
+	c.rcvMu.Lock()
+	cancel := c.cancel
+	c.rcvMu.Unlock()
+
+	if cancel != nil {
+		cancel()
+		select {
+		case <-c.rcvDone:
+		case <-ctx.Done():
+		}
+	}
+}
+
 func (c *channel) setState(state SessionState) {
 	c.setStateWLock(state)
 
